@@ -137,6 +137,13 @@ func runC12(ctx *Ctx) {
 			}
 		}
 		ctx.Tag("scheme:" + scheme)
+		// correspondence: the modelled Impl/Type callbacks (Stdlib/*.lean, written for C13 and exercised there on
+		// wholly known arguments only) against the real function on the WEAKENED arguments — their unknown branches
+		if mn, ok := c12Modelled[fn.name]; ok {
+			if p, _ := try(func() { c13Case(ctx, mn, ws, false) }); p {
+				ctx.Tag("correspondence:oracle-panic")
+			}
+		}
 	}
 	concrete := func(fn c11Fn, args []cty.Value) (cty.Value, bool) {
 		for _, a := range args {
